@@ -1,2 +1,70 @@
-(* Properties_C18.v -- placeholder, theorems follow *)
-From TP Require Import Term.
+(* Properties_C18.v — C18: character-set designators follow the VT standard and
+   round-trip.  All statements are about the COMPLETE graphs of the real
+   lookup_character_set / encode_character_set (Generated.v, regenerated from
+   the headers on every run): 256 one-byte candidates, 256 '%'-extended
+   candidates, 19 sets.  Proved by computation inside the kernel. *)
+From TP Require Import Base Elem Screen VT Generated Tie_Charset.
+Local Open Scope N_scope.
+
+Definition designatable : list charset := removelast all_charsets.   (* all but utf8 *)
+
+Definition real_encode (c : charset) : list N := nth (N.to_nat (cs_index c)) g_encode_cs [].
+Definition real_lookup (d : list N) : option N :=
+  match d with
+  | [b] => nth (N.to_nat b) g_lookup1 None
+  | [37; b] => nth (N.to_nat b) g_lookup2 None
+  | _ => None
+  end.
+
+(* the designator produced for every set other than UTF-8 is the standard
+   VT/xterm designator of that set and looks up to the same set again *)
+Theorem C18_standard_and_roundtrip :
+  forallb (fun c => bytes_eqb (real_encode c) (std_designator c) &&
+                    opt_eqb N.eqb (real_lookup (real_encode c)) (Some (cs_index c)))
+          designatable = true.
+Proof. vm_compute. reflexivity. Qed.
+Print Assumptions C18_standard_and_roundtrip.
+
+(* every standard alias looks up to the set it denotes *)
+Theorem C18_aliases :
+  forallb (fun ac => opt_eqb N.eqb (real_lookup (fst ac)) (Some (cs_index (snd ac)))) std_alias = true.
+Proof. vm_compute. reflexivity. Qed.
+Print Assumptions C18_aliases.
+
+(* no two sets share a designator: a candidate looks up to at most one set by
+   construction of a function; and no designator of one set looks up to another *)
+Theorem C18_no_shared_designator :
+  forallb (fun c => forallb (fun c' =>
+     if cs_eqb c c' then true
+     else negb (opt_eqb N.eqb (real_lookup (real_encode c)) (Some (cs_index c')))) designatable)
+     designatable = true.
+Proof. vm_compute. reflexivity. Qed.
+Print Assumptions C18_no_shared_designator.
+
+(* exactly the standard designators and aliases look up to anything: every
+   other one-byte candidate and every other '%'-extended two-byte candidate
+   yields nothing, and those that do yield the standard set *)
+Theorem C18_nothing_else :
+  forallb (fun b => opt_eqb N.eqb (real_lookup [b]) (option_map cs_index (std_lookup [b])))
+          (Nseq 0 256) = true /\
+  forallb (fun b => opt_eqb N.eqb (real_lookup [37; b]) (option_map cs_index (std_lookup [37; b])))
+          (Nseq 0 256) = true /\
+  g_lookup_extender_alone = [None] /\ g_lookup_empty = [None] /\
+  length (filter (fun o => match o with Some _ => true | None => false end) g_lookup1) = 22%nat /\
+  length (filter (fun o => match o with Some _ => true | None => false end) g_lookup2) = 2%nat.
+Proof. vm_compute. repeat split. Qed.
+Print Assumptions C18_nothing_else.
+
+(* the model used in all other theorems agrees with the real functions on their
+   whole domain (so the G0 designation the reference terminal receives for an
+   element, by C01, is the standard designator) *)
+Theorem C18_model_agrees :
+  map (fun b => option_map cs_index (lookup_cs [b])) (Nseq 0 256) = g_lookup1 /\
+  map (fun b => option_map cs_index (lookup_cs [37; b])) (Nseq 0 256) = g_lookup2 /\
+  map encode_cs all_charsets = g_encode_cs /\
+  forallb (fun c => opt_eqb cs_eqb (std_lookup (encode_cs c)) (Some c)) designatable = true.
+Proof.
+  split; [exact tie_lookup1|]. split; [exact tie_lookup2|]. split; [exact tie_encode_cs|].
+  vm_compute. reflexivity.
+Qed.
+Print Assumptions C18_model_agrees.
